@@ -17,6 +17,12 @@ KIND = {"float32": "floating", "float64": "floating", "longdouble": "floating", 
         "intc": "integer", "int32": "integer", "int64": "integer", "uint8": "integer", "bool": "bool_"}
 
 
+# library fact: other spellings numpy.dtype() accepts for the same types (type names of C, array-protocol strings, type characters)
+ALIASES = {"cdouble": "complex128", "csingle": "complex64", "c16": "complex128", "c8": "complex64", "D": "complex128", "F": "complex64", "complex": "complex128",
+           "double": "float64", "single": "float32", "f8": "float64", "f4": "float32", "d": "float64", "f": "float32", "float": "float64",
+           "<c16": "complex128", "<c8": "complex64", "<f8": "float64", "<f4": "float32"}
+
+
 def name_of(t) -> str:
     if isinstance(t, DT):
         return t.name
@@ -24,6 +30,7 @@ def name_of(t) -> str:
     for pre in ("np.", "numpy."):
         if s.startswith(pre):
             s = s[len(pre):]
+    s = ALIASES.get(s, s)
     if s not in REALOF:
         raise TypeError(f"data type {s!r} not understood")
     return s
@@ -254,6 +261,72 @@ class NDArr(PyNative):
     def __neg__(self):
         return self._ew(0, lambda a, b: -a)
 
+    # ---- boolean arrays (results of elementwise comparisons) ----
+    def __or__(self, o):
+        return self._ew(o, lambda a, b: bool(a) or bool(b))
+
+    __ror__ = __or__
+
+    def __and__(self, o):
+        return self._ew(o, lambda a, b: bool(a) and bool(b))
+
+    __rand__ = __and__
+
+    def __invert__(self):
+        return self._ew(0, lambda a, b: not bool(a))
+
+    def compare(self, o, fn):
+        """numpy semantics of a comparison operator: elementwise, a boolean array"""
+        return self._ew(o, lambda a, b: bool(fn(a, b)))
+
+    def all(self, axis=None, **k):
+        if axis is None:
+            return all(bool(v) for v in self.flat())
+        return self._reduce(axis, lambda vs: all(bool(v) for v in vs))
+
+    def any(self, axis=None, **k):
+        if axis is None:
+            return any(bool(v) for v in self.flat())
+        return self._reduce(axis, lambda vs: any(bool(v) for v in vs))
+
+    def sum(self, axis=None, **k):
+        if axis is None:
+            out = 0
+            for v in self.flat():
+                out = out + (int(v) if isinstance(v, bool) else v)
+            return out
+        return self._reduce(axis, lambda vs: sum((int(v) if isinstance(v, bool) else v) for v in vs))
+
+    def _reduce(self, axis, fn):
+        nd = len(self.shape)
+        if axis < 0:
+            axis += nd
+        if not 0 <= axis < nd:
+            raise ValueError(f"axis {axis} is out of bounds for array of dimension {nd}")
+        out_shape = tuple(n for k_, n in enumerate(self.shape) if k_ != axis)
+        data = self.data
+        vals = []
+        for mi in _multi_indices(out_shape):
+            col = []
+            for j in range(self.shape[axis]):
+                idx = list(mi[:axis]) + [j] + list(mi[axis:])
+                v = data
+                for i_ in idx:
+                    v = v[i_]
+                col.append(v)
+            vals.append(fn(col))
+        if not out_shape:
+            return vals[0]
+        return NDArr(_rebuild(vals, out_shape), out_shape)
+
+    def truth(self):
+        """bool(array) as NumPy defines it"""
+        if self.size == 1:
+            return bool(self.flat()[0])
+        if self.size == 0:
+            return False
+        raise ValueError("The truth value of an array with more than one element is ambiguous. Use a.any() or a.all()")
+
     def reshape(self, *shape):
         if len(shape) == 1 and isinstance(shape[0], (tuple, list)):
             shape = tuple(shape[0])
@@ -411,7 +484,25 @@ def install_arrays(it):
         raise NotImplementedError("np.prod along an axis other than 0")
     it.overrides["np.prod"] = _PyCall(prod)
     it.overrides["np.allclose"] = _PyCall(allclose)
-    it.overrides["np.isclose"] = _PyCall(allclose)
+
+    def isclose(a, b, rtol=0, atol=0, **k):
+        """elementwise for arrays (exact model: tolerances are treated as `equal`, as in allclose)"""
+        if isinstance(a, NDArr):
+            return a.compare(b, lambda x, y: x == y)
+        if isinstance(b, NDArr):
+            return b.compare(a, lambda x, y: x == y)
+        return a == b
+    it.overrides["np.isclose"] = _PyCall(isclose)
+
+    def _arr(x):
+        return x if isinstance(x, NDArr) else NDArr(x) if isinstance(x, (list, tuple)) else None
+    it.overrides["np.all"] = _PyCall(lambda x, axis=None, **k: (_arr(x).all(axis) if _arr(x) is not None else bool(x)))
+    it.overrides["np.any"] = _PyCall(lambda x, axis=None, **k: (_arr(x).any(axis) if _arr(x) is not None else bool(x)))
+    it.overrides["np.sum"] = _PyCall(lambda x, axis=None, **k: (_arr(x).sum(axis) if _arr(x) is not None else x))
+    it.overrides["np.count_nonzero"] = _PyCall(lambda x, axis=None, **k: _arr(x).compare(0, lambda a_, b_: a_ != b_).sum(axis))
+    it.overrides["np.logical_or"] = _PyCall(lambda a, b: _arr(a) | b)
+    it.overrides["np.logical_and"] = _PyCall(lambda a, b: _arr(a) & b)
+    it.overrides["np.logical_not"] = _PyCall(lambda a: ~_arr(a))
     it.overrides["np.zeros"] = _PyCall(lambda shape, **k: full(shape, 0))
     it.overrides["np.ones"] = _PyCall(lambda shape, **k: full(shape, 1))
     it.overrides["np.eye"] = _PyCall(lambda n, **k: NDArr([[1 if i == j else 0 for j in range(n)] for i in range(n)], (n, n)))
